@@ -52,7 +52,9 @@ def changes(ids):
                     out.append(("seeded", pid, l, p, os.path.join(d, "demo_%s.py" % x), os.path.join(d, "meta_%s.json" % x), rnd))
         d = os.path.join(VERIF, "notes", "harm_inbox", pid)
         for x in "ABC":
-            p = os.path.join(d, "patch_%s.diff" % x)
+            p = os.path.join(d, "patch_%s_rebased.diff" % x)
+            if not os.path.exists(p):
+                p = os.path.join(d, "patch_%s.diff" % x)
             if os.path.exists(p):
                 out.append(("harmless", pid, x, p, os.path.join(d, "demo_%s.py" % x), os.path.join(d, "meta_%s.json" % x), "harm"))
     return out
@@ -76,7 +78,7 @@ def confirm_one(ch):
             old = json.load(open(os.path.join(out, "meta.json")))
         except Exception:
             old = {}
-    if old.get("source_patch_sha") == sha and old.get("confirmed_at_repo_head") == head() and "confirmed" in old.get("what_i_ran", {}):
+    if old.get("source_patch_sha") == sha and old.get("confirmed_at_repo_head") == head() and old.get("what_i_ran", {}).get("confirmed") is True:
         return "%s-%s %s: confirmed earlier (%s)" % (pid, label, kind, old["what_i_ran"]["confirmed"])
     ran = {}
     wt = "/tmp/campaign_%s_%s_%s" % (kind, pid, label)
